@@ -133,9 +133,14 @@ func (g *gInst) ba(tag []string, size int) *cmn.BitArray {
 		return cmn.NewBitArray(size) // the peer claims to have nothing: the node will try to send
 	case "gt/ok":
 		return cmn.NewBitArray(size + []int{1, 61, 64, 1000}[g.rng.Intn(4)])
-	case "eq/none":
-		if g.rng.Intn(2) == 0 {
+	case "eq/none": // Bits and Elems disagree: too few words, none at all, or surplus words
+		switch g.rng.Intn(4) {
+		case 0:
 			return &cmn.BitArray{Bits: size, Elems: []uint64{}}
+		case 1:
+			return &cmn.BitArray{Bits: size, Elems: []uint64{0, 0, 0}}
+		case 2:
+			return &cmn.BitArray{Bits: 1, Elems: []uint64{0, 0, 0}}
 		}
 		return &cmn.BitArray{Bits: size}
 	case "gt/few":
